@@ -274,8 +274,8 @@ def rule_row_shape(ctx: Ctx, repo: Repo) -> None:
     ctx.check(len(pi.values) == len(target_cols) and all(sqlmini.text(v) == "?" for v in pi.values), "R-C08.2", sc.fi.fq,
               "the INSERT binds one parameter per column", construct=sql.v.strip())
     tup = None
-    if params and isinstance(params[0], R) and params[0].kind == "list" and len(params[0].fields["items"]) == 1:
-        tup = params[0].fields["items"][0]
+    if params and isinstance(params[0], R) and params[0].kind == "list" and len(params[0].fields["items"]) in (1, 2) and len(set(params[0].fields["items"])) == 1:
+        tup = params[0].fields["items"][0]  # one symbolic round of a loop - or the two equal rounds of a generator helper
     elif params and isinstance(params[0], R) and params[0].kind == "comp" and not params[0].fields["ifs"]:
         tup = params[0].fields["elt"]
     if isinstance(tup, R) and tup.kind == "nt":
